@@ -146,8 +146,9 @@ def eval_bool_to_exit_code(fn) -> tuple:
 
 
 def _status_of_test(cmp) -> str | None:
-    """`test.status == TestStatus.X` / `t.status == TestStatus.X` -> 'X'"""
-    if (isinstance(cmp, ast.Compare) and len(cmp.ops) == 1 and isinstance(cmp.ops[0], ast.Eq)
+    """`test.status == TestStatus.X` / `t.status == TestStatus.X` -> 'X'  (`is` instead of `==` is the same decision:
+    TestStatus does not define `__eq__` - checked in `extract` - so equality of its members IS identity)"""
+    if (isinstance(cmp, ast.Compare) and len(cmp.ops) == 1 and isinstance(cmp.ops[0], (ast.Eq, ast.Is))
             and isinstance(cmp.left, ast.Attribute) and cmp.left.attr == "status"
             and isinstance(cmp.comparators[0], ast.Attribute)
             and isinstance(cmp.comparators[0].value, ast.Name) and cmp.comparators[0].value.id == "TestStatus"):
@@ -179,6 +180,17 @@ def _tag_helpers(junit) -> set:
     return out
 
 
+def _plain(e) -> bool:
+    """constant / name / attribute chain / f-string of such: evaluating it has no effect"""
+    if isinstance(e, (ast.Constant, ast.Name)):
+        return True
+    if isinstance(e, ast.Attribute):
+        return _plain(e.value)
+    if isinstance(e, ast.JoinedStr):
+        return all(isinstance(v, ast.Constant) or (isinstance(v, ast.FormattedValue) and _plain(v.value)) for v in e.values)
+    return False
+
+
 def _junit_children(fn, helpers=("_set_with_message",)) -> dict[str, list[str]]:
     """if/elif chain of _add_test_case: status -> list of child tags added via _set_with_message"""
     chain = [s for s in fn.body if isinstance(s, ast.If)]
@@ -193,6 +205,9 @@ def _junit_children(fn, helpers=("_set_with_message",)) -> dict[str, list[str]]:
             break
         tags = []
         for s in node.body:
+            if isinstance(s, (ast.Assign, ast.AnnAssign)) and s.value is not None and _plain(s.value) \
+                    and all(isinstance(t, ast.Name) for t in (s.targets if isinstance(s, ast.Assign) else [s.target])):
+                continue        # `msg = "…"` / `out = stdout.text`: a local for a text, adds no child element
             if (isinstance(s, ast.Expr) and isinstance(s.value, ast.Call) and isinstance(s.value.func, ast.Name)
                     and s.value.func.id in helpers and len(s.value.args) >= 2):
                 a = s.value.args[1]
@@ -208,38 +223,71 @@ def _junit_children(fn, helpers=("_set_with_message",)) -> dict[str, list[str]]:
     return out
 
 
+def _count_of(v, local) -> str:
+    """which tests an expression counts: '*' = every test, 'X' = the tests with `status == TestStatus.X`.
+    Understood: `sum(1 for t in suite [if c])`, `len([t for t in suite [if c]])`, `len(list(suite))`, `len(suite)`,
+    `sum(x)` / `len(x)` of such a comprehension bound to a local, a local bound once to one of these, `str(...)` around it."""
+    if isinstance(v, ast.Name) and v.id in local:
+        return _count_of(local[v.id], {k: e for k, e in local.items() if k != v.id})
+    if isinstance(v, ast.Call) and isinstance(v.func, ast.Name) and v.func.id in ("str", "int") and len(v.args) == 1 \
+            and not v.keywords:
+        return _count_of(v.args[0], local)
+    if not (isinstance(v, ast.Call) and isinstance(v.func, ast.Name) and v.func.id in ("sum", "len") and len(v.args) == 1
+            and not v.keywords):
+        raise ValueError("not a count")
+    inner = v.args[0]
+    if isinstance(inner, ast.Name) and inner.id in local:
+        inner = local[inner.id]
+    if v.func.id == "len":
+        if isinstance(inner, ast.Call) and isinstance(inner.func, ast.Name) and inner.func.id in ("list", "tuple") \
+                and len(inner.args) == 1 and isinstance(inner.args[0], ast.Name):
+            return "*"                                         # len(list(suite))
+        if isinstance(inner, ast.Name):
+            return "*"                                         # len(suite)
+        if not isinstance(inner, (ast.ListComp, ast.GeneratorExp)):
+            raise ValueError("len of something that is not a comprehension over the tests")
+    else:
+        if not (isinstance(inner, (ast.ListComp, ast.GeneratorExp)) and isinstance(inner.elt, ast.Constant)
+                and inner.elt.value == 1):
+            raise ValueError("sum of something that is not `1 for … in …`")
+    if len(inner.generators) != 1 or inner.generators[0].is_async or not isinstance(inner.generators[0].iter, ast.Name):
+        raise ValueError("unexpected generator")
+    ifs = inner.generators[0].ifs
+    if not ifs:
+        return "*"
+    if len(ifs) == 1 and _status_of_test(ifs[0]) is not None:
+        return _status_of_test(ifs[0])
+    raise ValueError("unexpected filter")
+
+
 def _junit_counts(fn) -> dict[str, str]:
     """as_junit_xml_element: attribute -> status counted (`sum(1 for t in suite if t.status == TestStatus.X)`),
-    'tests' -> '*' (`sum(1 for _ in suite)`)"""
+    'tests' -> '*' (`sum(1 for _ in suite)`); see `_count_of` for the spellings understood"""
     out = {}
+    count, value = {}, {}
+    for n in ast.walk(fn):
+        if isinstance(n, ast.Assign) and len(n.targets) == 1 and isinstance(n.targets[0], ast.Name):
+            count[n.targets[0].id] = count.get(n.targets[0].id, 0) + 1
+            value[n.targets[0].id] = n.value
+        elif isinstance(n, (ast.AnnAssign, ast.AugAssign)) and isinstance(n.target, ast.Name):
+            count[n.target.id] = count.get(n.target.id, 0) + (1 if isinstance(n, ast.AnnAssign) and n.value is not None else 2)
+            if isinstance(n, ast.AnnAssign) and n.value is not None:
+                value[n.target.id] = n.value
+        elif isinstance(n, (ast.For, ast.comprehension)):
+            for x in ast.walk(n.target):
+                if isinstance(x, ast.Name):
+                    count[x.id] = count.get(x.id, 0) + 2
+    local = {k: v for k, v in value.items() if count.get(k) == 1}
     for s in ast.walk(fn):
         if (isinstance(s, ast.Call) and isinstance(s.func, ast.Attribute) and s.func.attr == "set"
                 and len(s.args) == 2 and isinstance(s.args[0], ast.Constant)):
             key = s.args[0].value
             if key not in ("tests", "errors", "failures", "skipped"):
                 continue
-            v = s.args[1]
-            # str(len(<tests>)) counts every test
-            if (isinstance(v, ast.Call) and isinstance(v.func, ast.Name) and v.func.id == "str" and len(v.args) == 1
-                    and isinstance(v.args[0], ast.Call) and isinstance(v.args[0].func, ast.Name)
-                    and v.args[0].func.id == "len"):
-                out[key] = "*"
-                continue
-            # str(sum(<genexp>))
-            if not (isinstance(v, ast.Call) and isinstance(v.func, ast.Name) and v.func.id == "str"
-                    and isinstance(v.args[0], ast.Call) and isinstance(v.args[0].func, ast.Name)
-                    and v.args[0].func.id == "sum" and isinstance(v.args[0].args[0], ast.GeneratorExp)):
-                raise ValueError(f"as_junit_xml_element: unexpected value for attribute {key}")
-            gen = v.args[0].args[0]
-            if not (isinstance(gen.elt, ast.Constant) and gen.elt.value == 1 and len(gen.generators) == 1):
-                raise ValueError(f"as_junit_xml_element: unexpected generator for {key}")
-            ifs = gen.generators[0].ifs
-            if not ifs:
-                out[key] = "*"
-            elif len(ifs) == 1 and _status_of_test(ifs[0]) is not None:
-                out[key] = _status_of_test(ifs[0])
-            else:
-                raise ValueError(f"as_junit_xml_element: unexpected filter for {key}")
+            try:
+                out[key] = _count_of(s.args[1], local)
+            except ValueError as e:
+                raise ValueError(f"as_junit_xml_element: unexpected value for attribute {key}: {e}") from None
     if set(out) != {"tests", "errors", "failures", "skipped"}:
         raise ValueError("as_junit_xml_element: count attributes not found")
     return out
@@ -252,12 +300,17 @@ def _float_units(x: float) -> int:
     return int(fr)
 
 
-def _suite_falsy(suite) -> list[str]:
-    """falsy list of the nested helper of TestSuite.__bool__, located by structure (name / parameter are local choices)"""
-    nested = [n for n in _func(suite, "__bool__").body if isinstance(n, ast.FunctionDef)]
-    if len(nested) != 1 or len(nested[0].args.args) != 1:
-        raise ValueError("TestSuite.__bool__: expected exactly one nested one-parameter helper")
-    return _not_in_list(nested[0], "TestStatus", nested[0].args.args[0].arg)
+def _falsy(trees, cls, enum_name: str, members: list) -> list[str]:
+    """falsy members of a status enum: the literal list of `return self not in [...]`, else `__bool__` EVALUATED on every member
+    (fcv/pyeval.py: set literal, `is not`, `!=`, chains …)"""
+    from . import status as _st
+    try:
+        return _not_in_list(_func(cls, "__bool__"), enum_name, "self")
+    except ValueError:
+        try:
+            return _st._falsy(trees, cls, enum_name, members)
+        except _st.ExtractError as e:
+            raise ValueError(str(e)) from None
 
 
 def extract(src) -> dict:
@@ -266,7 +319,12 @@ def extract(src) -> dict:
     suite = _class(ts, "TestSuite")
     fdc = ast.parse(src("fieldcompare/_field_data_comparison.py"))
     fcs = _class(fdc, "FieldComparisonStatus")
-    common = ast.parse(src("fieldcompare/_cli/_common.py"))
+    from . import status as _status_tables
+    from ..pylite_tr import resolve_reexport
+    from ..pyeval import defines_own_eq
+    if defines_own_eq(status):
+        raise ValueError("TestStatus defines its own __eq__/__hash__: the `==`/`is` patterns of this extractor do not apply")
+    common = resolve_reexport(src, "fieldcompare/_cli/_common.py", "_bool_to_exit_code")[1]
     b2e = _func(common, "_bool_to_exit_code")
     exit_true, exit_false = eval_bool_to_exit_code(b2e)     # whole body is evaluated (early returns, locals)
     junit = ast.parse(src("fieldcompare/_cli/_junit.py"))
@@ -285,10 +343,10 @@ def extract(src) -> dict:
         raise ValueError("_ANNOTATION_SEPARATOR not found")
     return {
         "test_status": _enum_members(status),
-        "test_status_falsy": _not_in_list(_func(status, "__bool__"), "TestStatus", "self"),
-        "suite_falsy": _suite_falsy(suite),
+        "test_status_falsy": _falsy([ts, fdc], status, "TestStatus", _enum_members(status)),
+        "suite_falsy": _status_tables.suite_helper_falsy([fdc, ts], ts, suite, _enum_members(status), ValueError),
         "fc_status": _enum_members(fcs),
-        "fc_status_falsy": _not_in_list(_func(fcs, "__bool__"), "FieldComparisonStatus", "self"),
+        "fc_status_falsy": _falsy([ts, fdc], fcs, "FieldComparisonStatus", _enum_members(fcs)),
         "exit_true": int(exit_true), "exit_false": int(exit_false),
         "junit_children": _junit_children(_find_add_test_case(junit), _tag_helpers(junit)),
         "junit_counts": _junit_counts(_func(junit, "as_junit_xml_element")),
